@@ -23,25 +23,29 @@ def bestmove_rule(ctx, rid):
            ctx.where(f), sample={"function": f["key"], "min": mn, "max": mx, "call_blocks": sorted(marked)})
 
 
-def run(ctx):
+def balance_rule(ctx, rid="C09.R1"):
     committers = {k: v for k, v in table("committers.json").items() if not k.startswith("_")}
     for k in committers:
         if isinstance(committers[k]["contract"], dict) and committers[k]["contract"].get("Ok") == "any":
             committers[k] = dict(committers[k], contract=None, skip=True)
-    ctx.rule("C09.R1", "no path of any function returns with an outstanding Bitboard::make on a board it borrowed", floor=3)
-    ctx.rule("C09.R1m", "the move taken back is the move that was made (same expression)", floor=2)
+    ctx.rule(rid, "no path of any function returns with an outstanding Bitboard::make on a board it borrowed", floor=3)
+    ctx.rule(rid + "m", "the move taken back is the move that was made (same expression)", floor=2)
     for anchor in (B.MAKE, B.UNMAKE, SEARCH + "search_negamax", SEARCH + "search_quiescence"):
-        ctx.fn("C09.R1", anchor)
+        ctx.fn(rid, anchor)
     # the board crate's own probes and converters are judged by C03.R5 / C13.R1; everything that
     # uses a board from outside (search, engine, apps) is judged here
     fns = [(k, f) for k, f in workspace_fns(ctx.prog) if not committers.get(k, {}).get("skip") and f["crate"] != "inkayaku_board"]
-    n = run_balance(ctx, "C09.R1", fns, {k: v for k, v in committers.items() if not v.get("skip")})
+    n = run_balance(ctx, rid, fns, {k: v for k, v in committers.items() if not v.get("skip")})
     ctx.extra["functions_scanned"] = len(fns)
     ctx.extra["effect_sites"] = n
     # the two recursive searches must be among the analysed instances (fail closed)
     for a in ("search_negamax", "search_quiescence"):
-        if not any(o["key"].startswith("C09.R1|" + SEARCH + a + "|") for o in ctx.obligations):
-            ctx.lost("C09.R1", SEARCH + a + " (no make/unmake site found in it)")
+        if not any(o["key"].startswith(rid + "|" + SEARCH + a + "|") for o in ctx.obligations):
+            ctx.lost(rid, SEARCH + a + " (no make/unmake site found in it)")
+
+
+def run(ctx):
+    balance_rule(ctx, "C09.R1")
     bestmove_rule(ctx, "C09.R2")
     ctx.assumptions += [
         "Bitboard::make/unmake are the only primitives that change a board in place during search (C03 covers that unmake restores what make changed)",
